@@ -272,6 +272,9 @@ var f3Shapes = []struct {
 	{"locAnon2", "LAnon2", false},
 	// getters of the members: value receiver Name(), POINTER receiver PName() (ext.G) against plain fields
 	{"gdst", "GD", false},
+	// a LOCAL name for an imported struct type: its unexported members stay ext's (input round; 5b1f0a7)
+	{"rowExt", "RowE", true},
+	{"rowExt3", "RowE3", true},
 }
 
 const f3Prelude = scen.TypePrelude + `
@@ -310,6 +313,10 @@ type LAnon2 struct {
 		Rev int
 	}
 }
+
+// RowE / RowE3 are local names for imported struct types (X exported, y unexported and ext's own).
+type RowE ext.Inner
+type RowE3 ext.Inner3
 
 // GD takes what ext.G offers through getters.
 type GD struct {
